@@ -1030,10 +1030,12 @@ def _plot_sunset(
             opacity=opacity_conditional,
         )
     else:
-        errors = alt.LayerChart()
+        errors = None
 
+    # an empty first layer cannot be made interactive
+    layers = [regression, points] if errors is None else [errors, regression, points]
     return (
-        alt.layer(errors, regression, points)
+        alt.layer(*layers)
         .add_params(selector)
         .resolve_scale(color="independent")
     )
